@@ -2,7 +2,7 @@
 import itertools
 from vf.core import Suite, coq_bool
 from vf.gen import pick_weighted
-from props.b10util import parse_out, coq_ops, coq_universe
+from props.b10util import parse_expanded as parse_out, coq_ops, coq_universe
 
 ID = "C39"
 THEOREMS = ["C39_placeholder"]
@@ -181,8 +181,8 @@ class Main(Suite):
                 return ("final-mismatch", "references %r differ from the reported outcomes applied to the initial state %r" % (final_refs, refs))
             if isinstance(post, list):
                 want_post = [[str(nm), "zero" if o < 0 else str(o), "zero" if n < 0 else str(n)] for (nm, o, n), a in zip(cmds, mask) if a]
-                if post[1:] != want_post:
-                    return ("post-mismatch", "PostReceive saw %r, applied were %r" % (post[1:], want_post))
+                if post != want_post:
+                    return ("post-mismatch", "PostReceive saw %r, applied were %r" % (post, want_post))
             return None
         # no report: some consistent subset of the commands must explain the final references
         init_refs, _ = sim_init(c["init"])
